@@ -278,6 +278,10 @@ def run(ctx, eng):
                'a copy refreshed at ACK time')
     cm.include(ctx, eng, 'C03', {'FLOW.init'},
                'likewise for the server\'s view of the client\'s window')
+    cm.include(ctx, eng, 'C10', {'ARITH.limit'},
+               'the server can answer stream 1 (and the client receive the '
+               'answer) whatever MAX_CONCURRENT_STREAMS was handed over: the '
+               'limit guards only HEADERS that open a stream')
     cm.include(ctx, eng, 'C09', {'ORD.id-bookkeeping', 'ARITH.id-low',
                                  'OWN.creators'},
                'stream 1 is used up by the upgrade on both sides: every '
